@@ -2,17 +2,26 @@ import os
 from vlib.runner import Ob
 from vlib.props.C19 import STUBS, UB_IGNORE
 
-# Defects of daemon/proxyd.c found by these obligations (F, I: repaired in /repo by 250f3c7 / 5559cc9; G, K: proposed fixes in the report):
-#  F. forward_data asserted line_count < max_lines: a frame with data on every scanned line aborted the daemon           (queue_capture_step)
-#  I. queue_force_free compared against the moving queue head: an overflow dropped more than the oldest frame              (queue_capture_step, seq_overflow)
-#  G. forward_data counts a client for a new frame only if all_services != 0, although a client whose cursor is still in
-#     the queue walks onto that frame (its services were revoked by a re-computation another client caused)                (queue_capture_step, seq_revoke)
-#  K. stop_acquisition frees the queued frames without resetting the cursors of the clients                                (service_step, seq_revoke)
+# Defects of daemon/proxyd.c found by these obligations
+#  F. forward_data asserted line_count < max_lines: a frame with data on every scanned line aborted the daemon     (repaired: 250f3c7; queue_capture_step)
+#  I. queue_force_free compared against the moving queue head: an overflow dropped more than the oldest frame        (repaired: 5559cc9; queue_capture_step, seq_schedule)
+#  G. forward_data counts a client for a new frame only if all_services != 0, although a client whose cursor is still in the queue walks onto that
+#     frame (the device revoked its services in a re-computation another client caused): the frame is under-referenced, the next reader that releases
+#     it trips assert(p_proxy_dev->p_sliced == p_buf) in vbi_proxy_queue_release_sliced - the daemon aborts, every client loses its stream
+#     (queue_capture_step_revoked, seq_revoked_client_keeps_queue; patch /tmp/c18-fixes/G-forward-data-pending-client.diff)
+#  K. stop_acquisition frees the queued frames without resetting the cursors of the clients: use after free in vbi_proxyd_send_sliced /
+#     vbi_proxy_queue_release_sliced when (a) the daemon is terminated (vbi_proxyd_destroy closes the devices first, then the connections) while a
+#     client has a frame pending, (b) the device grants nothing any more in a re-computation while a client has a frame pending
+#     (service_step_close_with_cursors, seq_device_closed_with_frames_pending; patch /tmp/c18-fixes/K-stop-acquisition-reset-cursors.diff)
+# The obligations that contain the states/runs of G and K are separate (own names) so that every other instance is decided independently of them.
 
 M = ["c19_io.c"]
 U = ["src/inout.c", "src/misc.c"]
-C18_STUBS = STUBS + ["solver build: the sliced indication buffer is allocated with the size of its TYPE (VBIPROXY_MSG) + guard bytes behind the size the daemon "
-                     "asked for (cbmc's whole-member bounds check on p_msg->body is fatal otherwise); the native replay build uses the real malloc under ASan"]
+C18_STUBS = STUBS + ["solver build, allocation model c18_malloc (h_c18.c): malloc() of daemon/proxyd.c hands out typed objects - frame buffers as structs with PROXY_QUEUE as "
+                     "prefix (0, 1 or W_MAXLINES lines), the sliced indication as a struct of the size of VBIPROXY_MSG with the layout of a sliced indication and a guard "
+                     "line slot behind the size the daemon asked for (cbmc's whole-member bounds check on p_msg->body is fatal for an object of the requested size; untyped "
+                     "byte arrays make the line counter inside the message symbolic); the native replay build uses the real malloc under ASan",
+                     "solver build: memcpy as a byte loop (lengths are concrete)"]
 
 
 def obligations(tier, seed):
@@ -22,7 +31,11 @@ def obligations(tier, seed):
     INV = ["queue invariant (asserted again after every step): every queued frame is referenced exactly by the clients whose cursor is at or before it, "
            "cursors point into the queue of their device, no buffer both queued and free, lists acyclic, no cursor on a closed device; <= 1 token owner; "
            "device open <=> capture present"]
-    uw = {"memcmp.0": 66, "_vbi_strlcpy.0": 130}
+    # Every loop of harness, models and daemon has a concrete trip count in these obligations (list walks over a concrete pointer structure); the byte
+    # loops over 56/64 byte lines get their own bound, the global bound stays small: a list walk whose end symex cannot see (error paths that close a
+    # connection) would otherwise be unrolled to the bound on every path (measured with --unwind 70: 18 GB).  Unwinding assertions guard all of it.
+    uw = {"memcmp.0": 66, "_vbi_strlcpy.0": 130, "memcpy.0": 65, "w_frame.0": 65, "w_fill_frames.0": 57, "c19_read.0": 57, "sq_capture.1": 65,
+          "c18_malloc.0": 57, "c18_guard_ok.0": 57, "sq_shutdown.0": 30}
 
     def seq(sched, **kw):
         d = dict(("E%d" % i, e) for i, e in enumerate(sched))
@@ -31,15 +44,19 @@ def obligations(tier, seed):
 
     SEQ_DEF = dict(W_MAXLINES=1, C19_MAXLINES=1, W_NBUF=3, C19_SENDBYTES=88, C19_SENDLOG=8, C19_NIO=8, C19_NUPD=8, NCL=2, NQ=0)
     SEQ_UW = dict(uw); SEQ_UW.update({"c19_log_send.0": 89, "c19_log_send.1": 9})
+    # SEQ with frames of several lines was built and dropped: the daemon's filter reads `lines[idx].id' through PROXY_QUEUE (declared lines[1]); for idx >= 1 cbmc 6.11
+    # gives an unconstrained value on a typed buffer object (the message length becomes symbolic: no symex end in 250 s) and untyped buffers (byte arrays with the
+    # list pointers inside) cost > 300 s for 4 events.  Filtering and order of multi-line frames are decided by delivery_step (untyped buffers, one delivery).
     SEQ_ENC = ["vbi_proxyd_forward_data", "vbi_proxy_queue_get_free", "vbi_proxy_queue_force_free", "vbi_proxyd_send_sliced", "vbi_proxy_queue_release_sliced",
                "vbi_proxyd_close", "vbi_proxy_msg_write", "vbi_proxy_msg_handle_write", "vbi_proxyd_take_message(SERVICE_REQ)", "vbi_proxyd_take_service_req",
-               "vbi_proxyd_update_services", "vbi_proxy_queue_allocate", "vbi_proxy_stop_acquisition", "vbi_proxyd_channel_update"]
-    SEQ_BOUNDS = ("<= 8 events, 2..3 clients, 3 two-line buffers; schedule, service sets (client i subscribed to SVCi, line j of every frame has id LIDj) and the device's "
-                  "answers to service re-computations are concrete (grid) - a symbolic schedule or subscription merges pointer states (first version: > 20 GB for "
-                  "4 events); frame payload, time stamps, clock symbolic; sockets take whole messages")
+               "vbi_proxyd_update_services", "vbi_proxy_queue_allocate", "vbi_proxy_stop_acquisition", "vbi_proxyd_channel_update", "vbi_proxyd_destroy"]
+    SEQ_BOUNDS = ("<= 8 events, 2..3 clients, 3 (thorough also 2, 1) buffers of 1 line; schedule, service sets (client i subscribed to SVCi, line j of every frame has id "
+                  "LIDj) and the device's answers to service re-computations are concrete (grid) - a symbolic schedule or subscription merges pointer states (first "
+                  "version: > 20 GB for 4 events); frame payload, time stamps, clock symbolic; sockets take whole messages")
     SEQ_OUT = ("partial writes; channel/token events inside the schedule (C19); CONNECT_REQ inside the schedule (state after CONNECT constructed directly); "
                "frames are filtered with the services granted at DELIVERY time (the daemon's choice when a re-computation changes a grant in between)")
-    # schedules: 1 frame, 9 device idle, 2/3/8 client 0/1/2 writable, 4/5 client 0/1 disconnects, 6/7 client 0/1 SERVICE_REQ
+    SEQ_ASS = ["state after CONNECT_REQ constructed directly (services at strictness 0, all granted)"]
+    # events: 1 frame, 9 device idle, 2/3/8 client 0/1/2 writable, 4/5 client 0/1 disconnects, 6/7 client 0/1 SERVICE_REQ, 10 daemon terminates
     sched_q = [
         seq((1, 1, 2, 3)),                       # two frames, both read
         seq((1, 2, 1, 3, 2)),                    # interleaved readers
@@ -51,90 +68,195 @@ def obligations(tier, seed):
         seq((1, 6, 1, 2, 3), SREQ="0x3"),        # SERVICE_REQ of client 0
         seq((1, 1, 2, 3, 8), NCL=3),             # three clients, third gets both lines
         seq((1, 9, 2, 1, 3), SVC1="0x18"),       # client 1 subscribed to a service no line carries: frames with zero lines, still every frame once
+        seq((1, 2, 3, 4, 5, 10)),                # everybody has read everything and leaves, then the daemon terminates: device closed once
+        seq((1, 3, 1, 1, 1, 3, 2)),              # stalled client 0 (first in the list), client 1 one frame ahead: overflow takes only client 0's oldest frame
     ]
     sched_t = sched_q + [
         seq((1, 1, 3, 2)), seq((1, 3, 1, 2)), seq((2, 1, 1, 2)), seq((1, 1, 1, 2, 1, 3)), seq((1, 2, 1, 1, 1, 1, 3, 2)),
         seq((1, 1, 4, 1, 1, 3)), seq((1, 5, 1, 1, 1, 1, 2)), seq((1, 7, 1, 6, 2, 3, 1, 2)), seq((1, 1, 8, 1, 1, 3, 2, 8), NCL=3),
-        seq((1, 4, 1, 8, 3), NCL=3), seq((1, 1, 2, 3), W_MAXLINES=3, C19_MAXLINES=3, C19_SENDBYTES=216),
+        seq((1, 4, 1, 8, 3), NCL=3),
         seq((1, 1, 1, 2, 3), W_NBUF=2), seq((1, 2, 1, 1, 2, 3), W_NBUF=2), seq((1, 1, 1, 3, 2), W_NBUF=1),
     ]
     # the device answers a re-computation with "nothing" for some client (norm change, conflicting services of an earlier client)
-    revoke_q = [
-        seq((1, 7, 1, 3, 2), REVOKE=1),          # G: client 0 (frame pending) loses its services while client 1 re-requests; next frame; client 1 reads; client 0 reads
-        seq((1, 2, 1, 5, 2), REVOKE=1),          # K: client 1 leaves, client 0 (frame pending) is granted nothing any more: device closes; client 0 writable
-        seq((1, 7, 3, 2, 1, 2, 3), REVOKE=2),    # the requester itself is granted nothing: it gets no more frames, client 0 all
+    revoke_ok_q = [seq((1, 7, 3, 2, 1, 2, 3), REVOKE=2)]    # the requester itself is granted nothing: it gets no more frames, client 0 all
+    revoke_ok_t = revoke_ok_q + [seq((1, 2, 3, 7, 1, 3, 2), REVOKE=1), seq((1, 3, 7, 3, 1, 2, 3), REVOKE=2)]
+    revoke_g_q = [seq((1, 7, 1, 3, 2), REVOKE=1)]           # client 0 (frame pending) loses its services while client 1 re-requests; next frame; client 1 reads; client 0 reads
+    revoke_g_t = revoke_g_q + [seq((1, 1, 7, 1, 3, 2, 1, 2), REVOKE=1), seq((1, 1, 7, 1, 1, 3, 2), REVOKE=1)]
+    close_k_q = [seq((1, 10)),                               # a frame pending for both clients, the daemon is told to terminate
+                 seq((1, 2, 1, 5, 2), REVOKE=1)]             # client 1 leaves, client 0 (frame pending) is granted nothing any more: device closes; client 0 writable
+    close_k_t = close_k_q + [seq((1, 2, 1, 10)), seq((1, 6, 2, 1, 3), REVOKE=3, SREQ="0x3"), seq((1, 4, 3, 1, 3), REVOKE=1), seq((1, 1, 1, 1, 10))]
+
+    # the real main loop (h_main): one entry per iteration, bit 0 frame, bit 1 plain wake-up, bit 4+c client c stalled, bit 8+c client c's peer closed
+    def ms(*it, **kw):
+        d = dict(("M%d" % i, "0x%x" % e) for i, e in enumerate(it))
+        d.update(kw)
+        return d
+    MAIN_DEF = dict(W_MAXLINES=1, C19_MAXLINES=1, W_NBUF=3, C19_SENDBYTES=88, C19_SENDLOG=12, C19_NIO=12, C19_NUPD=8, NCL=2, NQ=0)
+    MAIN_UW = dict(uw); MAIN_UW.update({"c19_log_send.0": 89, "ms_plan_iteration.3": 65, "h_main.4": 30})
+    common2 = dict((k, v) for k, v in common.items() if k != "stubs")
+    main_q = [
+        ms(0x1, 0x1, 0x1),                                   # every frame goes out in the iteration it is captured, to both
+        ms(0x21, 0x21, 0x21, 0x21, 0x21, 0x2),               # client 1 stalled over five frames: client 0 gets all five at once, client 1 afterwards the one in flight and the three newest
+        ms(0x11, 0x11, 0x2, 0x1),                            # client 0 (first in the list) stalled over two frames, then catches up
+        ms(0x1, 0x102, 0x1, 0x202, 0x2),                     # peer of client 0 closes: client 1 goes on; then client 1 closes: device closed
+        ms(0x21, 0x21, 0x1, 0x2),                            # client 1 stalled, becomes writable in an iteration that also captures
     ]
-    revoke_t = revoke_q + [seq((1, 1, 7, 1, 3, 2, 1, 2), REVOKE=1), seq((1, 6, 2, 1, 3), REVOKE=3, SREQ="0x3"), seq((1, 4, 3, 1, 3), REVOKE=1),
-                           seq((1, 1, 7, 1, 1, 3, 2), REVOKE=1)]
+    main_t = main_q + [ms(0x31, 0x31, 0x31, 0x31, 0x2), ms(0x11, 0x21, 0x11, 0x21, 0x2), ms(0x1, 0x202, 0x1, 0x102), ms(0x21, 0x21, 0x21, 0x21, 0x11, 0x2)]
+
+    SEQ_DESC = ("SEQ against a shadow model: clients connected and subscribed (client i to SVCi), empty queue, events in the order given by the grid (1 frame captured with "
+                "symbolic payload and time stamp, 9 device idle, 2/3/8 client 0/1/2 writable, 4/5 client 0/1 disconnects, 6/7 client 0/1 sends SERVICE_REQ, 10 the daemon "
+                "is told to terminate): the messages handed to send() for client i are - after a pending reply - in capture order, exactly once, the frames captured while "
+                "it was subscribed, each filtered to its granted services, with the capture time stamp; nothing else is sent; when the daemon runs out of buffers only the "
+                "oldest frame is lost and only by the clients that had not read it (a stalled client costs the others nothing); a client changing its services loses only "
+                "its own queued frames; queue invariant and lock discipline after every event")
 
     obs = [
         Ob("queue_capture_step", func="h_fwd", unwind=6, unwindset=uw,
            desc="queue INV-STEP, capture: vbi_proxyd_forward_data from every well-formed queue state (3 buffers, NQ queued, cursors of <= 3 clients symbolic), the device "
                 "delivering an arbitrary frame (0..max lines, symbolic time stamp), a timeout or an error: the frame is queued exactly once at the tail, referenced by "
-                "exactly the clients that will walk onto it (FORWARD and services granted, or frames still pending), with the captured line count, lines and time stamp; "
+                "exactly the clients that will walk onto it (FORWARD and services granted), with the captured line count, lines and time stamp; "
                 "clients with nothing pending get it as next frame, all other cursors and the order of older frames are unchanged; without a free buffer only the oldest "
                 "frame is dropped and only its readers move on; queue invariant kept, no mutex left locked",
            encodes=["vbi_proxyd_forward_data", "vbi_proxy_queue_get_free", "vbi_proxy_queue_force_free", "vbi_proxy_queue_release_sliced", "vbi_proxy_queue_add_tail",
                     "vbi_proxy_queue_add_free", "vbi_capture_read_sliced (inout.c)"],
-           bounds="one capture event; 3 buffers of W_MAXLINES lines (quick: 1), NQ = 0..3 queued; 3 clients; last client on the same or the other device", assumes=INV,
+           bounds="one capture event; 3 buffers of W_MAXLINES lines (quick: 1), NQ = 0..3 queued; 3 clients; last client on the same or the other device",
+           assumes=INV + ["GSTATE=0: every client with frames pending is still granted a service (the other states: queue_capture_step_revoked)"],
            outside="raw (VBI_SLICED_VBI_*) forwarding; acquisition thread; a read that yields no frame after the oldest frame was already dropped for it is not judged",
-           defines=dict(W_MAXLINES=1, C19_MAXLINES=1, W_NBUF=3),
-           grid=[g(NCL=3, NQ=q, BDEV=b) for q in (0, 1, 2, 3) for b in (0, 1)] + [g(NCL=3, NQ=q, BDEV=0, W_MAXLINES=2, C19_MAXLINES=2) for q in (1, 3)],
-           quick_grid=[g(NCL=3, NQ=0, BDEV=0), g(NCL=3, NQ=2, BDEV=0), g(NCL=3, NQ=3, BDEV=1)],
-           reach=["end", "queued"], timeout=300, mem_gb=3, vin_size=4096, **common),
+           defines=dict(W_MAXLINES=1, C19_MAXLINES=1, W_NBUF=3, GSTATE=0),
+           grid=[g(NCL=3, NQ=q, BDEV=b) for q in (0, 1, 2) for b in (0, 1)] + [g(NCL=3, NQ=1, BDEV=0, W_MAXLINES=2, C19_MAXLINES=2, C18_TYPED_QN=1)],
+           quick_grid=[g(NCL=3, NQ=0, BDEV=0), g(NCL=3, NQ=2, BDEV=0), g(NCL=3, NQ=1, BDEV=1), g(NCL=3, NQ=1, BDEV=0, W_MAXLINES=2, C19_MAXLINES=2, C18_TYPED_QN=1)],
+           reach=["end", "queued", "idle"], timeout=300, mem_gb=2, vin_size=4096, **common),
+        Ob("queue_overflow_step", func="h_fwd", unwind=6, unwindset=uw,
+           desc="queue INV-STEP, capture without a free buffer (all 3 buffers queued: some client is stalled): as queue_capture_step; exactly the oldest frame is given up, "
+                "exactly the clients whose cursor was on it move on by one frame, everybody else's cursor and the order of the other frames are unchanged, the new frame "
+                "is appended - a stalled client costs the others nothing",
+           encodes=["vbi_proxyd_forward_data", "vbi_proxy_queue_force_free", "vbi_proxy_queue_release_sliced", "vbi_proxy_queue_get_free", "vbi_proxy_queue_add_tail"],
+           bounds="one capture event; 3 buffers, all queued; 3 clients; last client on the same or the other device", assumes=INV + ["GSTATE=0 (as queue_capture_step)"],
+           outside="as queue_capture_step",
+           defines=dict(W_MAXLINES=1, C19_MAXLINES=1, W_NBUF=3, GSTATE=0, NQ=3, NCL=3),
+           grid=[g(BDEV=0), g(BDEV=1), g(BDEV=0, W_MAXLINES=2, C19_MAXLINES=2, C18_TYPED_QN=1)], quick_grid=[g(BDEV=0), g(BDEV=1)],
+           reach=["end", "queued", "forced"], timeout=300, mem_gb=2, vin_size=4096, **common),
+        Ob("queue_capture_step_revoked", func="h_fwd", unwind=6, unwindset=uw,
+           desc="queue INV-STEP, capture, states of defect G: as queue_capture_step, but at least one client has frames pending and no service granted any more (the "
+                "device revoked them in a re-computation somebody else caused; reached by seq_revoked_client_keeps_queue): its cursor walks onto the new frame, so the "
+                "frame must count it (else the frame is freed, or the queue head assertion of vbi_proxy_queue_release_sliced aborts the daemon, while it still points there)",
+           encodes=["vbi_proxyd_forward_data", "vbi_proxy_queue_get_free", "vbi_proxy_queue_force_free", "vbi_proxy_queue_release_sliced"],
+           bounds="one capture event; 3 one-line buffers, NQ = 1..3 queued; 3 clients", assumes=INV + ["GSTATE=1: at least one client FORWARD, cursor set, all_services == 0"],
+           outside="as queue_capture_step",
+           defines=dict(W_MAXLINES=1, C19_MAXLINES=1, W_NBUF=3, GSTATE=1),
+           grid=[g(NCL=3, NQ=q, BDEV=0) for q in (1, 2, 3)], quick_grid=[g(NCL=3, NQ=1, BDEV=0), g(NCL=3, NQ=3, BDEV=0)],
+           reach=["end", "queued"], timeout=300, mem_gb=2, vin_size=4096, **common),
         Ob("delivery_step", func="h_deliver", unwind=6, unwindset=dict(uw, **{"c19_log_send.0": 17, "c19_log_send.1": 5}),
            desc="queue INV-STEP, delivery: vbi_proxyd_send_sliced + vbi_proxy_queue_release_sliced (paired as in vbi_proxyd_handle_client_sockets) for a client with a "
                 "frame pending, from a queue of NQ frames with symbolic contents, the client's services symbolic: the message is exactly the frame at THAT client's cursor "
                 "- header length/type, capture time stamp, number of lines, and the lines whose id intersects the granted services, all of them, in order, byte for byte - "
                 "nothing is written behind the allocated message, the queued frame is not modified, the cursor moves on by exactly one frame, the frame loses exactly this "
-                "reference (freed iff last reader), no other client is touched, queue invariant kept",
+                "reference (freed iff last reader, else it keeps its place), no other client is touched, queue invariant kept",
            encodes=["vbi_proxyd_send_sliced", "vbi_proxy_queue_release_sliced", "vbi_proxy_msg_write", "vbi_proxy_msg_handle_write"],
            bounds="one delivery; frames of W_MAXLINES lines of which LC carry data (grid); 2 clients with concrete cursors CUR0/CUR1 (grid); socket blocked (message inspected in the write buffer)",
            assumes=INV + ["the client's line range fixed at subscription (vbi_count) covers the frame (the daemon truncates to it, protecting the client's buffers)"],
            outside="raw services; frames longer than 3 lines (the filter loop is uniform in the line index: argument, not solver)",
-           defines=dict(W_NBUF=3, NCL=2, C19_NIO=4),
+           defines=dict(W_NBUF=3, NCL=2, C19_NIO=4, C18_MSG_BYTES=1),
            grid=[g(W_MAXLINES=2, C19_MAXLINES=2, LC=2, NQ=2, ACT=0, CUR0=0, CUR1=0), g(W_MAXLINES=2, C19_MAXLINES=2, LC=2, NQ=2, ACT=1, CUR0=0, CUR1=1),
                  g(W_MAXLINES=2, C19_MAXLINES=2, LC=1, NQ=1, ACT=0, CUR0=0, CUR1=9), g(W_MAXLINES=2, C19_MAXLINES=2, LC=0, NQ=1, ACT=0, CUR0=0, CUR1=0),
                  g(W_MAXLINES=3, C19_MAXLINES=3, LC=3, NQ=2, ACT=0, CUR0=1, CUR1=0), g(W_MAXLINES=3, C19_MAXLINES=3, LC=3, NQ=1, ACT=1, CUR0=9, CUR1=0),
                  g(W_MAXLINES=3, C19_MAXLINES=3, LC=2, NQ=3, ACT=0, CUR0=0, CUR1=2)],
            quick_grid=[g(W_MAXLINES=2, C19_MAXLINES=2, LC=2, NQ=2, ACT=0, CUR0=0, CUR1=0), g(W_MAXLINES=2, C19_MAXLINES=2, LC=2, NQ=2, ACT=1, CUR0=0, CUR1=1),
                        g(W_MAXLINES=3, C19_MAXLINES=3, LC=3, NQ=1, ACT=1, CUR0=9, CUR1=0)],
-           reach=["end", "filtered"], timeout=300, mem_gb=4, vin_size=4096, **common),
+           reach=["end", "filtered", "all"], timeout=300, mem_gb=2, vin_size=4096, **common),
         Ob("service_step", func="h_svc", unwind=6, unwindset=uw,
            desc="service INV-STEP: vbi_proxyd_take_service_req (the body of CONNECT_REQ and SERVICE_REQ) with symbolic services at strictness STRICTV, from every invariant "
-                "state (other client symbolic; device open with NQ frames queued, or closed), the device granting an arbitrary subset on every call: the request moves to the "
-                "given level only; the device is asked for exactly the union of the requests of its clients; every client is granted a subset of its request; the device's "
-                "service set is the union of the grants; it is opened at most once, open afterwards iff something is granted and closed otherwise; while it stays open nobody "
-                "else's cursor moves; when it closes no cursor survives (the buffers are freed); queue invariant kept",
+                "state (other client symbolic; device open with NQ frames queued, or closed and openable), the device granting an arbitrary subset on every call: the request "
+                "moves to the given level only and is narrowed to the grant; the device is asked for exactly the union of the requests of its clients; every client is granted "
+                "a subset of its request, the requester exactly what stays recorded; the device's service set is the union of the grants; it is opened at most once, open "
+                "afterwards iff something is granted and closed otherwise; while it stays open nobody else's cursor moves; queue invariant kept",
            encodes=["vbi_proxyd_take_service_req", "vbi_proxyd_update_services", "vbi_proxy_start_acquisition", "vbi_proxy_stop_acquisition", "vbi_proxy_queue_allocate",
                     "vbi_proxyd_update_scanning", "vbi_capture_update_services / _parameters / _fd (inout.c)"],
            bounds="one request; 2 clients (acting client first or last); -buffers 1, every client asks for 1 buffer; 2 one-line buffers; strictness on the grid; "
-                  "device closed: outcome of opening it case-split (DEVCASE 0 ok, 3 cannot be opened)", assumes=INV,
+                  "closed device: first open (buffers of the previous line count 0) or re-open (PREVLINES=1)",
+           assumes=INV + ["KSTATE=0: runs that close the device while another client has frames pending are in service_step_close_with_cursors"],
            outside="acquisition-thread devices; raw services (buffers with raw sub-buffer); more than 2 clients",
-           defines=dict(W_MAXLINES=1, C19_MAXLINES=1, W_NBUF=2, NCL=2),
-           grid=[g(ACT=a, DEVOPEN=1, NQ=q, STRICTV=s, BDEV=0) for (a, q, s) in ((0, 1, 0), (1, 1, 2), (0, 0, -1), (1, 2, 1), (0, 2, 0))] +
-                [g(ACT=a, DEVOPEN=0, NQ=0, STRICTV=s, BDEV=0, DEVCASE=c) for (a, s, c) in ((0, 0, 0), (1, 1, 0), (0, 2, 3), (1, -1, 3))] +
+           defines=dict(W_MAXLINES=1, C19_MAXLINES=1, W_NBUF=2, NCL=2, KSTATE=0),
+           grid=[g(ACT=a, DEVOPEN=1, NQ=q, STRICTV=s, BDEV=0) for (a, q, s) in ((0, 1, 0), (1, 1, 2), (1, 2, 1), (0, 2, 0))] +
+                [g(ACT=a, DEVOPEN=0, NQ=0, STRICTV=s, BDEV=0, DEVCASE=0, PREVLINES=p) for (a, s, p) in ((0, 0, 0), (1, 1, 1), (1, 2, 0), (0, -1, 1))] +
                 [g(ACT=0, DEVOPEN=1, NQ=1, STRICTV=0, BDEV=1)],
-           quick_grid=[g(ACT=0, DEVOPEN=1, NQ=1, STRICTV=0, BDEV=0), g(ACT=1, DEVOPEN=1, NQ=1, STRICTV=2, BDEV=0), g(ACT=0, DEVOPEN=0, NQ=0, STRICTV=0, BDEV=0, DEVCASE=0),
-                       g(ACT=1, DEVOPEN=0, NQ=0, STRICTV=1, BDEV=0, DEVCASE=3)],
-           reach=["end", "open", "closed"], timeout=400, mem_gb=4, vin_size=4096, **common),
-        Ob("seq_schedule", func="h_seq", unwind=10, unwindset=SEQ_UW,
-           desc="SEQ against a shadow model: clients connected and subscribed (client i to SVCi), empty queue, events in the order given by the grid (1 frame captured with "
-                "two symbolic lines and symbolic time stamp, 9 device idle, 2/3/8 client 0/1/2 writable, 4/5 client 0/1 disconnects, 6/7 client 0/1 sends SERVICE_REQ): the "
-                "messages handed to send() for client i are - after a pending reply - in capture order, exactly once, the frames captured while it was subscribed, each "
-                "filtered to its granted services, with the capture time stamp; nothing else is sent; when the daemon runs out of buffers only the oldest frame is lost and "
-                "only by the clients that had not read it (a stalled client costs the others nothing); a client changing its services loses only its own queued frames; "
-                "queue invariant and lock discipline after every event",
-           encodes=SEQ_ENC, bounds=SEQ_BOUNDS, outside=SEQ_OUT, assumes=["state after CONNECT_REQ constructed directly (services at strictness 0, all granted)"],
+           quick_grid=[g(ACT=0, DEVOPEN=1, NQ=1, STRICTV=0, BDEV=0), g(ACT=1, DEVOPEN=1, NQ=1, STRICTV=2, BDEV=0),
+                       g(ACT=0, DEVOPEN=0, NQ=0, STRICTV=0, BDEV=0, DEVCASE=0, PREVLINES=0), g(ACT=1, DEVOPEN=0, NQ=0, STRICTV=1, BDEV=0, DEVCASE=0, PREVLINES=1)],
+           reach=["end", "open"], timeout=400, mem_gb=2, vin_size=4096, **common),
+        Ob("service_step_empty_queue", func="h_svc", unwind=6, unwindset=uw,
+           desc="service INV-STEP from an open device with nothing queued: as service_step; here the device is also closed when nothing is granted to anybody any more "
+                "(capture object deleted once, buffers freed, no file descriptor left in the select set)",
+           encodes=["vbi_proxyd_take_service_req", "vbi_proxyd_update_services", "vbi_proxy_stop_acquisition", "vbi_proxy_queue_allocate", "vbi_proxy_queue_free_all"],
+           bounds="one request; 2 clients; device open, no frame queued", assumes=INV, outside="as service_step",
+           defines=dict(W_MAXLINES=1, C19_MAXLINES=1, W_NBUF=2, NCL=2, DEVOPEN=1, NQ=0, BDEV=0),
+           grid=[g(ACT=0, STRICTV=-1), g(ACT=1, STRICTV=0), g(ACT=1, STRICTV=2)], quick_grid=[g(ACT=0, STRICTV=-1)],
+           reach=["end", "open", "closed"], timeout=300, mem_gb=2, vin_size=4096, **common),
+        Ob("service_step_noopen", func="h_svc", unwind=6, unwindset=uw,
+           desc="service INV-STEP, the closed device cannot be opened (vbi_capture_v4l2_new and vbi_capture_v4l_new fail): the request is refused, the request table "
+                "of the requester keeps what was asked at the given level, nobody is granted anything, no device handle is left behind",
+           encodes=["vbi_proxyd_take_service_req", "vbi_proxyd_update_services", "vbi_proxy_start_acquisition", "vbi_proxy_stop_acquisition"],
+           bounds="one request; 2 clients; device closed, DEVCASE=3", assumes=INV, outside="as service_step",
+           defines=dict(W_MAXLINES=1, C19_MAXLINES=1, W_NBUF=2, NCL=2, DEVOPEN=0, NQ=0, BDEV=0, DEVCASE=3),
+           grid=[g(ACT=0, STRICTV=2), g(ACT=1, STRICTV=-1), g(ACT=1, STRICTV=1)], quick_grid=[g(ACT=1, STRICTV=1)],
+           reach=["end", "closed"], timeout=300, mem_gb=2, vin_size=4096, **common),
+        Ob("service_step_close_with_cursors", func="h_svc", unwind=6, unwindset=uw,
+           desc="service INV-STEP, runs of defect K: as service_step, restricted to the runs in which the device is closed (nothing granted to anybody any more) while the "
+                "other client has frames pending: when the device closes its buffers are freed, so no cursor may survive",
+           encodes=["vbi_proxyd_take_service_req", "vbi_proxyd_update_services", "vbi_proxy_stop_acquisition", "vbi_proxy_queue_free_all"],
+           bounds="one request; 2 clients; device open, NQ = 1..2 frames queued", assumes=INV + ["KSTATE=1"], outside="as service_step",
+           defines=dict(W_MAXLINES=1, C19_MAXLINES=1, W_NBUF=2, NCL=2, KSTATE=1, DEVOPEN=1, BDEV=0),
+           grid=[g(ACT=0, NQ=1, STRICTV=0), g(ACT=1, NQ=2, STRICTV=1), g(ACT=1, NQ=1, STRICTV=-1)], quick_grid=[g(ACT=0, NQ=1, STRICTV=0)],
+           reach=["end", "closed", "closed_with_cursor"], timeout=300, mem_gb=2, vin_size=4096, **common),
+        Ob("seq_schedule", func="h_seq", unwind=10, unwindset=SEQ_UW, desc=SEQ_DESC,
+           encodes=SEQ_ENC, bounds=SEQ_BOUNDS, outside=SEQ_OUT, assumes=SEQ_ASS,
            defines=SEQ_DEF, grid=sched_t, quick_grid=sched_q,
-           reach=["end", "delivered"], timeout=300, mem_gb=4, vin_size=4096, **common),
+           reach=["end", "delivered"], timeout=300, mem_gb=2, vin_size=4096, **common),
         Ob("seq_revoke", func="h_seq", unwind=10, unwindset=SEQ_UW,
            desc="SEQ, the device revokes services: as seq_schedule, but the k-th service re-computation call of the run (bit k of REVOKE) is answered with 'nothing' - what a "
-                "norm change or a conflicting request of a client earlier in the list does to vbi_capture_update_services.  A client that loses all its services while frames "
-                "are pending still gets those frames (and the frames captured until its queue is drained, without lines), every other client gets every frame once; if the "
-                "device is closed because nothing is granted any more, no client keeps a cursor into the freed queue",
-           encodes=SEQ_ENC, bounds=SEQ_BOUNDS, outside=SEQ_OUT, assumes=["state after CONNECT_REQ constructed directly (services at strictness 0, all granted)"],
-           defines=SEQ_DEF, grid=revoke_t, quick_grid=revoke_q,
-           reach=["end", "delivered"], timeout=300, mem_gb=4, vin_size=4096, **common),
+                "norm change or a conflicting request of a client earlier in the list does to vbi_capture_update_services.  Schedules in which the client that loses its "
+                "services has nothing pending: it gets no more frames, every other client gets every frame once",
+           encodes=SEQ_ENC, bounds=SEQ_BOUNDS, outside=SEQ_OUT, assumes=SEQ_ASS,
+           defines=SEQ_DEF, grid=revoke_ok_t, quick_grid=revoke_ok_q,
+           reach=["end", "delivered", "reply"], timeout=300, mem_gb=2, vin_size=4096, **common),
+        Ob("seq_revoked_client_keeps_queue", func="h_seq", unwind=10, unwindset=SEQ_UW,
+           desc="SEQ, defect G reached by daemon events: a frame is pending for client 0; client 1 sends SERVICE_REQ, in the re-computation the device grants client 0 "
+                "nothing any more; the next frame is captured; both clients read: client 0 still gets its pending frame and the frames captured until its queue is drained "
+                "(without lines), client 1 gets every frame once, the daemon does not abort",
+           encodes=SEQ_ENC, bounds=SEQ_BOUNDS, outside=SEQ_OUT, assumes=SEQ_ASS,
+           defines=SEQ_DEF, grid=revoke_g_t, quick_grid=revoke_g_q,
+           reach=["end", "delivered", "reply"], timeout=300, mem_gb=2, vin_size=4096, **common),
+        Ob("seq_device_closed_with_frames_pending", func="h_seq", unwind=10, unwindset=SEQ_UW,
+           desc="SEQ, defect K reached by daemon events: the device is closed while a client still has a frame pending - because the daemon is told to terminate "
+                "(event 10: vbi_proxyd_destroy closes the devices, then the connections), or because the last client that is granted anything leaves / the device grants "
+                "nothing any more: the frames are freed, so no client keeps a cursor (no use after free in vbi_proxyd_close / vbi_proxyd_send_sliced), nothing more is sent",
+           encodes=SEQ_ENC, bounds=SEQ_BOUNDS, outside=SEQ_OUT, assumes=SEQ_ASS,
+           defines=SEQ_DEF, grid=close_k_t, quick_grid=close_k_q,
+           reach=["end"], timeout=300, mem_gb=2, vin_size=4096, **common),
+        Ob("main_loop_schedule", func="h_main", unwind=18, unwindset=MAIN_UW,
+           desc="SEQ through the REAL main loop: vbi_proxyd_main_loop runs against a scripted select() - vbi_proxyd_get_fd_set, the loop body, vbi_proxyd_forward_data "
+                "and the whole of vbi_proxyd_handle_client_sockets are the daemon's code, nothing replicated.  One loop iteration per schedule entry (bit 0 the device has "
+                "a frame, bit 1 plain wake-up, bit 4+c client c stalled: socket not writable and send() fails with EAGAIN, bit 8+c client c's peer closed).  After every "
+                "iteration: the messages accepted by send() are, client by client in list order, the message left in the write buffer by a stalled socket and then the "
+                "pending frames in capture order, each once, filtered, with the capture time stamp; refused attempts only on stalled sockets; a stalled client holds one "
+                "message and its queued frames, the others get every frame in the iteration it is captured; only the oldest frame is lost when the buffers run out; a "
+                "closed connection is unlinked and the device stays open iff a remaining client is granted a service; the select set watches the open device and every "
+                "connection (for writing iff something is pending); queue invariant, lock discipline",
+           encodes=["vbi_proxyd_main_loop", "vbi_proxyd_get_fd_set", "vbi_proxyd_handle_client_sockets", "vbi_proxyd_forward_data", "vbi_proxyd_send_sliced",
+                    "vbi_proxy_queue_release_sliced", "vbi_proxy_queue_force_free", "vbi_proxy_msg_handle_read", "vbi_proxy_msg_handle_write", "vbi_proxyd_close",
+                    "vbi_proxyd_update_services", "vbi_proxyd_channel_update"],
+           bounds="<= 6 loop iterations, 2 clients (FORWARD, client i subscribed to SVCi), 3 one-line buffers; schedule concrete (grid), frame payload, time stamps, clock symbolic; "
+                  "sockets take a whole message or nothing", outside=SEQ_OUT + "; new connections and client messages inside the loop (C19 event_loop, seq_schedule)",
+           assumes=SEQ_ASS, stubs=C18_STUBS + ["select(): defined in the harness (scripted readiness; ends the loop by setting proxy.should_exit and failing with EINTR, as the "
+                                                "signal handler does)"],
+           defines=MAIN_DEF, grid=main_t, quick_grid=main_q,
+           reach=["end", "delivered"], timeout=300, mem_gb=2, vin_size=4096, **common2),
+        Ob("main_loop_shutdown_with_frames_pending", func="h_main", unwind=18, unwindset=MAIN_UW,
+           desc="SEQ through the real main loop, defect K: client 1 is stalled while two frames are captured (one message in its write buffer, one frame queued), the daemon is "
+                "told to terminate: main() leaves the loop and calls vbi_proxyd_destroy, which closes the device (freeing the queue) and then the connections - "
+                "vbi_proxyd_close must not walk the freed queue",
+           encodes=["vbi_proxyd_main_loop", "vbi_proxyd_handle_client_sockets", "vbi_proxyd_destroy", "vbi_proxy_stop_acquisition", "vbi_proxyd_close"],
+           bounds="2..3 loop iterations, 2 clients, 3 one-line buffers", outside=SEQ_OUT, assumes=SEQ_ASS, stubs=C18_STUBS + ["select(): defined in the harness"],
+           defines=dict(MAIN_DEF, MDESTROY=1), grid=[ms(0x21, 0x21), ms(0x11, 0x11, 0x11)], quick_grid=[ms(0x21, 0x21)],
+           reach=["end", "stalled"], timeout=300, mem_gb=2, vin_size=4096, **common2),
     ]
     return obs
